@@ -16,5 +16,5 @@ _orm.define(globals(), "C46", ("C46",), "refresh",
             "external writes happen only while the session holds no transaction (SQLite has one writer); loader options (load_only, "
             "deferred) are not part of the universe",
             weights={"ext_update": 8, "populate_existing": 5, "refresh": 5, "expire": 4, "expire_all": 2, "expire_attr": 4, "read": 8, "commit": 5,
-                     "rollback": 2, "set": 4, "requery": 3, "get": 2, "mk": 5, "close": 1, "flush": 3},
+                     "rollback": 2, "set": 4, "requery": 3, "get": 2, "mk": 5, "close": 1, "flush": 3, "m_ops": 3, "m_expire_part": 3},
             cfg_fn=_cfg)
